@@ -34,6 +34,8 @@ OTHER_OCC_CLASSES = {('cluster', 'MonteCarloSampler'), ('cluster', 'MonteCarloSa
 
 def run(model, rep, tier):
     rep.explanation = __doc__.strip()
+    from ._common import caches_for
+    caches_for(model, rep, 'C28')
     rep.not_decided = 'POSCAR text round trip; geometric correctness of index(); symmetry of gengroup'
     rep.rule('guard-lower-is-sentinel', 'lowest species index accepted by setocc equals the vacancy sentinel of the initial fill')
     rep.rule('guard-upper-is-extent', 'highest species index accepted by setocc equals (extent of chemorder) - 1 for every '
